@@ -1,7 +1,7 @@
 (* Printer: the parenthesisation rule of the expression printers (PreExp::to_string_with_precedence in il_exp.rs,
    used by RoocParser::format; the same rule is used for Exp in model.rs), at token level. *)
 From Coq Require Import Bool List Arith String.
-From Rooc Require Import Model.Exp Model.Pratt.
+From Rooc Require Import Model.Exp Gen.PrattTable Model.Pratt.
 Import ListNotations.
 
 Inductive ptree := PLeaf (a : nat) | PBin (op : binop) (l r : ptree) | PPre (op : unop) (u : ptree) | PPar (t : ptree).
@@ -58,7 +58,21 @@ Section Table.
     end.
 End Table.
 
-Definition src_render := render src_prec src_rassoc.
+(* the table the printers consult (BinOp::precedence / is_left_associative, regenerated from math/operators.rs);
+   it is NOT the parser's table: Proof/PrinterTable.v shows the two order the operators the same way *)
+Definition name_of_binop (op : binop) : string :=
+  match op with
+  | Add => "Add" | Sub => "Sub" | Mul => "Mul" | Div => "Div" | BAnd => "And" | BOr => "Or"
+  | BXor => "Xor" | BImplies => "Implies" | BIff => "Iff" end.
+Definition lookup_printer (n : string) : option (nat * bool) :=
+  match filter (fun e : string * nat * bool => String.eqb (fst (fst e)) n) printer_table with
+  | (_, p, l) :: _ => Some (p, l)
+  | [] => None
+  end.
+Definition prt_prec (op : binop) : nat := match lookup_printer (name_of_binop op) with Some (p, _) => p | None => 0 end.
+Definition prt_rassoc (op : binop) : bool := match lookup_printer (name_of_binop op) with Some (_, l) => negb l | None => false end.
+
+Definition src_render := render prt_prec prt_rassoc.
 
 (* ---------- the parser on text with parentheses: the grammar's `parenthesis = "(" exp ")"` is a primary whose
    content is parsed by a fresh precedence climb (PreExp parsing calls parse_exp recursively on the inner pair) *)
